@@ -441,7 +441,8 @@ struct StepOut {
     state: String,
     /// call tables of the engine differ from what the generator wrote: description
     tables: Option<String>,
-    /// a render panicked: description
+    /// a render panicked, or (last step) a refused late set_fallback_prefixes changed something:
+    /// description
     panic: Option<String>,
     renders: usize,
 }
@@ -490,6 +491,58 @@ fn run_case(c: &CaseR) -> Vec<StepOut> {
             }
         }
         out.push(so);
+    }
+    // under fallback prefixes: a LATE set_fallback_prefixes call is refused (templates are
+    // registered) and must change nothing — no name that resolved may go missing at render time,
+    // contains_template answers as before, and an unrelated template can still be added
+    if !c.prefixes.is_empty() && !out.is_empty() {
+        let late = catch(std::panic::AssertUnwindSafe(|| -> Option<String> {
+            let names: Vec<String> = {
+                let mut v: Vec<String> = tera.get_template_names().map(|s| s.to_string()).collect();
+                v.sort();
+                v
+            };
+            if names.is_empty() {
+                // nothing registered (every step was rejected): the call is allowed
+                return None;
+            }
+            let mut probes: Vec<String> = names.clone();
+            probes.extend(cur.values().flat_map(|t| t.sites.iter().filter(|s| s.kind == "include").map(|s| s.name.clone())));
+            let observe = |t: &Tera| -> Vec<String> {
+                let mut v: Vec<String> = names
+                    .iter()
+                    .map(|n| match catch(std::panic::AssertUnwindSafe(|| t.render(n, &Context::new()))) {
+                        Ok(Ok(s)) => format!("render {n} = ok:{s}"),
+                        Ok(Err(e)) => format!("render {n} = err:{}", err_class(&canon_err(&e))),
+                        Err(p) => format!("render {n} = panic:{p}"),
+                    })
+                    .collect();
+                v.extend(probes.iter().map(|p| format!("contains_template({p}) = {}", t.contains_template(p))));
+                v
+            };
+            for late in [Vec::<String>::new(), vec!["zz/".to_string()]] {
+                let before = observe(&tera);
+                if tera.set_fallback_prefixes(late.clone()).is_ok() {
+                    return Some(format!("set_fallback_prefixes({late:?}) was accepted although templates are registered"));
+                }
+                let after = observe(&tera);
+                if let Some((b, a)) = before.iter().zip(&after).find(|(b, a)| b != a) {
+                    return Some(format!("after a REFUSED late set_fallback_prefixes({late:?}) (prefixes {:?}): `{b}` became `{a}` — a name that was checked when templates were added must not go missing afterwards", c.prefixes));
+                }
+                let plain = RTpl { name: format!("zz_ok{}", late.len()), ..Default::default() };
+                if let Err(e) = tera.add_raw_template(&plain.name, &plain.source()) {
+                    return Some(format!("after a REFUSED late set_fallback_prefixes({late:?}) (prefixes {:?}) adding the unrelated plain template `{}` fails with `{}`", c.prefixes, plain.name, canon_err(&e)));
+                }
+            }
+            None
+        }));
+        let desc = match late {
+            Ok(d) => d,
+            Err(p) => Some(format!("the late set_fallback_prefixes sequence panicked: {p}")),
+        };
+        if let (Some(d), Some(last)) = (desc, out.last_mut()) {
+            last.panic.get_or_insert(d);
+        }
     }
     out
 }
